@@ -1,6 +1,7 @@
 import TflModel.Model.Dykstra
 import TflModel.Lemmas.Idx
 import TflModel.Lemmas.DykstraExec
+import TflModel.Lemmas.DykstraSlots
 import TflModel.Lemmas.Trapezoid
 import TflModel.Lemmas.DykstraConvBox
 import TflModel.Lemmas.DykstraConvStencil
@@ -12,8 +13,32 @@ import Mathlib.Tactic.Linarith
 # C08 — iterative (Dykstra) projection: feasible ⇒ unchanged, exact group projections,
 Dykstra bookkeeping
 
-Model: `Tfl.Lat.dykstraPass / dykstraIter` over the group list `Tfl.Lat.groups` (the
-`_project_partial_*` functions), see `Model/Dykstra.lean`.
+Model: the group list `Tfl.Lat.groups` (the `_project_partial_*` functions) with the `last_change`
+dict keys `Tfl.Lat.groupKeys` of the visits; `projectByDykstraT` runs `dykstraIterST` — every visit
+reads and writes the slot of its KEY (`slots c`: a constraint tuple listed twice shares its slots, as
+the Python dict does; `dup_slots_differ` is a machine-checked instance where that changes the result,
+with the values the real code returns). `Tfl.Lat.dykstraPass / dykstraIter / dykstraIterT` are the
+loops with one slot per list POSITION: what the slotted loop is when no key repeats
+(`projectByDykstraT_of_nodup`, `Lemmas/DykstraSlots.lean`), and the object of the convergence theorems.
+See `Model/Dykstra.lean`.
+
+What is covered for WHICH configurations:
+* T2 (feasible / fixed ⇒ unchanged, idempotence) and T3 (bookkeeping invariant): EVERY configuration,
+  repeated constraints included (`projectByDykstraT_fixpoint`, `_feasible`, `_twice`,
+  `dykstraST_fixpoint_state`, `projectByDykstraT_telescopingS`, `projectByDykstraT_agreeS`).
+* convergence to the nearest feasible kernel on the executable model
+  (`projectByDykstraT_cfg_converges`): `CfgWF` = `CfgShape` (dims in range and distinct, no range
+  dominance) + `keys : (groupKeys c).Nodup`. `keys` follows from `NoRepeats c` (no constraint list has a
+  repeated entry: `groupKeys_nodup`, `cfgWF_of_noRepeats`, `projectByDykstraT_cfg_converges_noRepeats`);
+  `Props/C08Accepted.lean` derives `CfgShape` from constructor acceptance
+  (`verifyLattice_cfgShape / _cfgWF`, `accepted_converges`) and lists what acceptance does NOT give.
+* a constraint tuple listed twice (accepted by `verify_hyperparameters`; shared roll-back tensor =
+  Hundal–Deutsch's variant of the algorithm) is outside `CfgWF` but COVERED by
+  `Props/C08Shared.lean` (`projectByDykstraT_cfg_converges_shape`: hypothesis `CfgShape` only;
+  `Lemmas/DykstraConvShared.lean` is the abstract theorem for one correction per set and any cyclic
+  order with repetitions); the harness classes `dup:*` test the same on the real code.
+* NOT covered by a convergence theorem: `(d, d)` dominance / joint-monotonicity pairs (finding
+  F-C08-c, not modelled); range dominance (below).
 
 Proved (for every group list, every iteration count, every kernel):
 * T2 `dykstra_fixpoint`: if every group map fixes `w`, the whole loop returns `w` with all
@@ -49,9 +74,11 @@ Proved (for every group list, every iteration count, every kernel):
   - `mono_dykstra_converges` / `projectByDykstraT_mono_converges`: monotonicity constraints, every
     rank / sizes / set of monotone dimensions / kernel — the iterates of `project_by_dykstra`'s model
     converge to the Euclidean-nearest monotone kernel and the largest monotonicity violation tends to 0.
-  - `dykstra_cfg_converges` / `projectByDykstraT_cfg_converges`: EVERY constraint kind except range
+  - `dykstra_cfg_converges` (position-slotted function-level loop, hypothesis `CfgShape`) /
+    `projectByDykstraT_cfg_converges` (executable model, hypothesis `CfgWF` = `CfgShape` + no repeated
+    dict key): EVERY constraint kind except range
     dominance, in any combination (monotonicity, unimodality, Edgeworth, trapezoid, monotonic dominance,
-    joint monotonicity, JOINT UNIMODALITY; `CfgWF`: the trusts / pairs name different dimensions of the
+    joint monotonicity, JOINT UNIMODALITY; `CfgShape`: the trusts / pairs name different dimensions of the
     lattice, the dims of a joint unimodality are distinct and in range): the
     iterates converge on every vertex to the kernel nearest to the input among the real kernels
     satisfying all constraints (`FeasibleR`; `feasibleR_of_feasibleD`: every `FeasibleD` rational
@@ -596,6 +623,16 @@ theorem dykstraT_fixpoint_state (sizes : List Nat) (ps : List (W → W)) (t : Ta
     dykstraIterT sizes ps n (t, ps.map (fun _ => zeroT sizes)) = (t, ps.map (fun _ => zeroT sizes)) :=
   dykstraIterT_fix sizes ps t ht h n
 
+/-- **C08-T2, executable, whole state, shared slots.** The same for the loop `project_by_dykstra`'s
+model actually runs (`dykstraIterST`: every group visit paired with the slot of its `last_change` dict
+key, repeated constraints share slots): same table, all slots still zero, for every iteration count
+and ANY assignment of slots. -/
+theorem dykstraST_fixpoint_state (sizes : List Nat) (ps : List ((W → W) × Nat)) (t : Table)
+    (ht : t = tabulate sizes t.get) (h : ∀ q ∈ ps, AgreeOn sizes (q.1 t.get) t.get) {α : Type} (l : List α)
+    (n : Nat) :
+    dykstraIterST sizes ps n (t, l.map (fun _ => zeroT sizes)) = (t, l.map (fun _ => zeroT sizes)) :=
+  dykstraIterST_fix sizes ps t ht h _ (allZeroT_map sizes l) n
+
 /-- **C08-T2, executable.** If every group map of the configuration fixes the table's kernel on the
 box, `project_by_dykstra` returns the same kernel values, for EVERY number of iterations and any
 table representation (locality of all group maps is `groups_local`, not a hypothesis). -/
@@ -605,7 +642,9 @@ theorem projectByDykstraT_fixpoint (c : DCfg) (n : Nat) (t : Table)
   unfold projectByDykstraT
   split_ifs
   · rfl
-  · exact dykstraIterT_fix_any c.sizes (groups c) t (groups_local c) h n
+  · exact dykstraIterST_fix_any c.sizes ((groups c).zip (slots c)) t
+      (fun q hq => groups_local c q.1 (zip_fst_mem hq)) (fun q hq => h q.1 (zip_fst_mem hq)) _
+      (allZeroT_map c.sizes _) n
 
 /-- normalised table: the result is literally the input table -/
 theorem projectByDykstraT_fixpoint_normal (c : DCfg) (n : Nat) (t : Table) (ht : t = tabulate c.sizes t.get)
@@ -613,7 +652,8 @@ theorem projectByDykstraT_fixpoint_normal (c : DCfg) (n : Nat) (t : Table) (ht :
   unfold projectByDykstraT
   split_ifs
   · rfl
-  · simp only [dykstraIterT_fix c.sizes (groups c) t ht h n]
+  · simp only [dykstraIterST_fix c.sizes ((groups c).zip (slots c)) t ht
+      (fun q hq => h q.1 (zip_fst_mem hq)) _ (allZeroT_map c.sizes _) n]
 
 /-- **C08-T2, executable, feasible ⇒ unchanged.** A kernel satisfying every constraint of the
 configuration passes through the executable `project_by_dykstra` unchanged (values on the box),
@@ -655,8 +695,46 @@ theorem dykstraIterT_telescoping (sizes : List Nat) (ps : List (W → W)) (hloc 
   rw [h1 idx hr, rsum_agreeL h2 hr, rsum_agreeL (agreeL_refl sizes ts) hr]
   exact dykstraIter_telescoping ps n t.get (ts.map Table.get) (by simpa using hl) idx
 
-/-- **C08-T3 for `project_by_dykstra` itself**: with the real group schedule and the initial zero
-`last_change` tables, after `n` passes `result − Σ_g last_change_g` is the input, on every vertex. -/
+/-- **C08-T3, executable, shared slots.** For local group maps the slotted table loop (`dykstraIterST`:
+positions with the same dict key share one `last_change` table) keeps `t − Σ_slots last_change`
+invariant on every vertex of the box, over any number of passes, from any state, for ANY assignment
+of slots inside the slot list. -/
+theorem dykstraIterST_telescoping (sizes : List Nat) (ps : List ((W → W) × Nat))
+    (hloc : ∀ q ∈ ps, Local sizes q.1) (n : Nat) (t : Table) (ts : List Table)
+    (hs : ∀ q ∈ ps, q.2 < ts.length) (idx : Idx) (hr : InRange sizes idx) :
+    (dykstraIterST sizes ps n (t, ts)).1.get idx
+        - rsum ((dykstraIterST sizes ps n (t, ts)).2.map (fun c => c.get idx))
+      = t.get idx - rsum (ts.map (fun c => c.get idx)) := by
+  obtain ⟨h1, h2⟩ := dykstraIterST_agree sizes ps hloc n (AgreeOn.refl sizes t.get) (agreeL_refl sizes ts)
+  rw [h1 idx hr, rsum_agreeL h2 hr, rsum_agreeL (agreeL_refl sizes ts) hr]
+  exact dykstraIterS_telescoping ps n t.get (ts.map Table.get) (by simpa using hs) idx
+
+theorem rsum_zeroT {sizes : List Nat} {α : Type} (l : List α) {idx : Idx} (hr : InRange sizes idx) :
+    rsum ((l.map (fun _ => zeroT sizes)).map (fun t => t.get idx)) = 0 := by
+  induction l with
+  | nil => rfl
+  | cons a r ih =>
+    have hz : (zeroT sizes).get idx = 0 := by simp only [zeroT, get_tabulate' _ hr]
+    simp only [List.map_cons, rsum, ih, hz, add_zero]
+
+/-- **C08-T3 for `project_by_dykstra` itself** (the loop `projectByDykstraT` runs: the real group
+schedule, one `last_change` table per dict key, all zero at the start): after `n` passes
+`result − Σ_keys last_change` is the input, on every vertex — also when constraints are listed
+twice and share their slots. -/
+theorem projectByDykstraT_telescopingS (c : DCfg) (n : Nat) (t : Table) (idx : Idx) (hr : InRange c.sizes idx) :
+    (dykstraIterST c.sizes ((groups c).zip (slots c)) n (t, (groups c).map (fun _ => zeroT c.sizes))).1.get idx
+        - rsum ((dykstraIterST c.sizes ((groups c).zip (slots c)) n
+            (t, (groups c).map (fun _ => zeroT c.sizes))).2.map (fun l => l.get idx))
+      = t.get idx := by
+  rw [dykstraIterST_telescoping c.sizes _ (fun q hq => groups_local c q.1 (zip_fst_mem hq)) n t _
+    (fun q hq => by
+      have := firstIdx_lt (groupKeys c) q.2 (zip_snd_mem hq)
+      rw [List.length_map, ← groupKeys_length]; exact this) idx hr]
+  rw [rsum_zeroT _ hr, sub_zero]
+
+/-- **C08-T3 for the position-slotted loop** (`dykstraIterT` over the real group schedule — the loop
+`projectByDykstraT` runs when no dict key repeats, `projectByDykstraT_of_nodup`): after `n` passes
+`result − Σ_g last_change_g` is the input, on every vertex. -/
 theorem projectByDykstraT_telescoping (c : DCfg) (n : Nat) (t : Table) (idx : Idx) (hr : InRange c.sizes idx) :
     (dykstraIterT c.sizes (groups c) n (t, (groups c).map (fun _ => zeroT c.sizes))).1.get idx
         - rsum ((dykstraIterT c.sizes (groups c) n (t, (groups c).map (fun _ => zeroT c.sizes))).2.map
@@ -672,8 +750,18 @@ theorem projectByDykstraT_telescoping (c : DCfg) (n : Nat) (t : Table) (idx : Id
       simp only [List.map_cons, rsum, ih, hz, add_zero]
   rw [this, sub_zero]
 
-/-- the executable loop computes, on the box, exactly the function-level loop of the bookkeeping
-theorems (model-internal tie, any iteration count) -/
+/-- the executable loop of `projectByDykstraT` (slots keyed by the dict keys) computes, on the box,
+exactly the function-level slotted loop (model-internal tie, any iteration count, repeated
+constraints included) -/
+theorem projectByDykstraT_agreeS (c : DCfg) (n : Nat) (t : Table) :
+    AgreeOn c.sizes
+      (dykstraIterST c.sizes ((groups c).zip (slots c)) n (t, (groups c).map (fun _ => zeroT c.sizes))).1.get
+      (dykstraIterS ((groups c).zip (slots c)) n (t.get, (groups c).map (fun _ => fun _ => 0))).1 :=
+  (dykstraIterST_agree c.sizes _ (fun q hq => groups_local c q.1 (zip_fst_mem hq)) n (AgreeOn.refl _ _)
+    (agreeL_zero c.sizes _)).1
+
+/-- the position-slotted executable loop computes, on the box, exactly the function-level loop of the
+bookkeeping theorems (model-internal tie, any iteration count) -/
 theorem projectByDykstraT_agree (c : DCfg) (n : Nat) (t : Table) :
     AgreeOn c.sizes (dykstraIterT c.sizes (groups c) n (t, (groups c).map (fun _ => zeroT c.sizes))).1.get
       (dykstraIter (groups c) n (t.get, (groups c).map (fun _ => fun _ => 0))).1 :=
@@ -998,7 +1086,7 @@ theorem projectByDykstraT_monoCfg_agree (sizes : List Nat) (mono : List Bool) (n
     AgreeOn sizes (projectByDykstraT (monoCfg sizes mono) n t).get
       (dykstraIter (groups (monoCfg sizes mono)) n
         (t.get, (groups (monoCfg sizes mono)).map (fun _ => fun _ => 0))).1 := by
-  unfold projectByDykstraT
+  rw [projectByDykstraT_of_nodup _ (groupKeys_nodup_of_empty (monoCfg sizes mono) rfl rfl rfl rfl rfl rfl)]
   split_ifs with h
   · simp only [Bool.or_eq_true, decide_eq_true_eq, Bool.not_eq_true'] at h
     rcases h with h | h
@@ -1518,8 +1606,15 @@ def KeyWF (sizes : List Nat) : GKey → Prop
   | .jmono p _ _ _ => p.1 < sizes.length ∧ p.2 < sizes.length ∧ p.1 ≠ p.2
   | .juni ju st => ju.dims.Nodup ∧ (∀ d ∈ ju.dims, d < sizes.length) ∧ StencilOK sizes ju.dims st
 
-/-- what `verify_hyperparameters` guarantees of a configuration, and no range dominance -/
-structure CfgWF (c : DCfg) : Prop where
+/-- the shape of a configuration the convergence theorems of the POSITION-slotted loop need: the
+trusts / pairs name two different dimensions of the lattice, the dims of a joint unimodality are
+distinct and in range, no range dominance.
+`verify_hyperparameters` guarantees `edge`, `trap`, `juni` and the range parts of `mdom`, `jmono`;
+`p.1 ≠ p.2` is guaranteed for dominances / joint monotonicities only with the proposed repair
+`repo_patches/F-C08-c.diff` (today `monotonic_dominances=[(0, 0)]`, `joint_monotonicities=[(0, 0)]` are
+accepted, and the real projection then reads axis `d+1` or raises: finding F-C08-c, the model does not
+mirror that). -/
+structure CfgShape (c : DCfg) : Prop where
   edge : ∀ tr ∈ c.edgeworth, TrustWF c.sizes tr
   trap : ∀ tr ∈ c.trapezoid, TrustWF c.sizes tr
   mdom : ∀ p ∈ c.monoDom, p.1 < c.sizes.length ∧ p.2 < c.sizes.length ∧ p.1 ≠ p.2
@@ -1527,7 +1622,21 @@ structure CfgWF (c : DCfg) : Prop where
   juni : ∀ ju ∈ c.jointUnimod, ju.dims.Nodup ∧ ∀ d ∈ ju.dims, d < c.sizes.length
   rdom : c.rangeDom = []
 
-theorem keys_wf (c : DCfg) (h : CfgWF c) : ∀ k ∈ keys c, KeyWF c.sizes k := by
+/-- a lattice configuration covered by the convergence theorem of the EXECUTABLE model:
+`CfgShape`, and no `last_change` dict key occurs twice in the group schedule (`keys`) — then every
+group visit has its own roll-back tensor and the loop is Boyle–Dykstra's.
+`keys` is NOT guaranteed by `verify_hyperparameters` (it accepts a constraint tuple listed twice, e.g.
+`joint_monotonicities=[(0, 1), (0, 1)]`); it holds whenever no constraint list has a repeated entry
+(`groupKeys_nodup`, `cfgWF_of_noRepeats`). For configurations WITH repeated entries the model follows
+the dict (shared slots, `Model/Dykstra.lean`), T2 / T3 hold (`projectByDykstraT_fixpoint`,
+`projectByDykstraT_telescopingS`), and the convergence clause is proved separately in
+`Props/C08Shared.lean` (`projectByDykstraT_cfg_converges_shape`, hypothesis `CfgShape` alone): one
+correction per set used at every visit of the set is Hundal–Deutsch's variant of the algorithm
+(`Lemmas/DykstraConvShared.lean`), not Boyle–Dykstra's (`Lemmas/DykstraConv.lean`). -/
+structure CfgWF (c : DCfg) : Prop extends CfgShape c where
+  keys : (groupKeys c).Nodup
+
+theorem keys_wf (c : DCfg) (h : CfgShape c) : ∀ k ∈ keys c, KeyWF c.sizes k := by
   intro k hk
   simp only [keys, keysPair, keysEdge, keysTrap, keysMdom, keysJmono, keysJuni, List.mem_append,
     List.mem_flatMap, List.mem_range] at hk
@@ -1675,7 +1784,7 @@ well-formed configuration (monotonicity, unimodality, Edgeworth and trapezoid tr
 dominance, joint monotonicity — any combination) and every kernel `w`, the iterates of the model of
 `project_by_dykstra` converge on every vertex to the kernel `p` that satisfies the constraints of all
 groups and is the Euclidean-nearest such kernel to `w` (Pythagoras gap ⇒ unique). -/
-theorem dykstra_cfg_converges_keys (c : DCfg) (hwf : CfgWF c) (w : W) :
+theorem dykstra_cfg_converges_keys (c : DCfg) (hwf : CfgShape c) (w : W) :
     ∃ p : Idx → ℝ, (∀ k ∈ keys c, keyF c k p) ∧
       (∀ y : Idx → ℝ, (∀ k ∈ keys c, keyF c k y) →
         bsum c.sizes (fun idx => ((w idx : ℝ) - p idx) ^ 2) + bsum c.sizes (fun idx => (p idx - y idx) ^ 2)
@@ -1847,7 +1956,7 @@ theorem feasibleR_iff_keys (c : DCfg) (y : Idx → ℝ) : FeasibleR c y ↔ ∀ 
 dominance, every kernel: the iterates of `project_by_dykstra`'s model converge, vertex by vertex,
 to the feasible kernel nearest to the input (sum of squares over the box; the Pythagoras gap makes
 it the unique nearest one); the sum of squared distances to it tends to 0. -/
-theorem dykstra_cfg_converges (c : DCfg) (hwf : CfgWF c) (w : W) :
+theorem dykstra_cfg_converges (c : DCfg) (hwf : CfgShape c) (w : W) :
     ∃ p : Idx → ℝ, FeasibleR c p ∧
       (∀ y : Idx → ℝ, FeasibleR c y →
         bsum c.sizes (fun idx => ((w idx : ℝ) - p idx) ^ 2) + bsum c.sizes (fun idx => (p idx - y idx) ^ 2)
@@ -1866,7 +1975,7 @@ theorem dykstra_cfg_converges (c : DCfg) (hwf : CfgWF c) (w : W) :
 
 /-- a rational kernel satisfying the configuration's constraints (`FeasibleD`, the predicate of the
 fixpoint theorems) is feasible in the sense of the convergence theorem -/
-theorem feasibleR_of_feasibleD (c : DCfg) (hwf : CfgWF c) (w : W) (hf : FeasibleD c w) :
+theorem feasibleR_of_feasibleD (c : DCfg) (hwf : CfgShape c) (w : W) (hf : FeasibleD c w) :
     FeasibleR c (fun idx => (w idx : ℝ)) := by
   rw [feasibleR_iff_keys]
   intro k hk
@@ -1887,12 +1996,29 @@ theorem uniform_of_bsum {sizes : List Nat} {u : ℕ → Idx → ℝ}
   have h1 := le_bsum (sizes := sizes) (f := fun idx => (u n idx) ^ 2) (fun _ => sq_nonneg _) hr
   exact abs_lt_of_sq_lt_sq (lt_of_le_of_lt h1 (hn0 n hn)) hε.le
 
-/-- the executable `project_by_dykstra` computes the function-level loop on the box, for every
-iteration count, whenever its early-return test lets the loop run -/
-theorem projectByDykstraT_agree_iter (c : DCfg) (hact : dykstraActive c = true) (n : Nat) (t : Table) :
+/-- the executable `project_by_dykstra` computes the function-level SLOTTED loop on the box (slots =
+dict keys; repeated constraints included), for every iteration count, whenever its early-return test
+lets the loop run -/
+theorem projectByDykstraT_agree_iterS (c : DCfg) (hact : dykstraActive c = true) (n : Nat) (t : Table) :
+    AgreeOn c.sizes (projectByDykstraT c n t).get
+      (dykstraIterS ((groups c).zip (slots c)) n (t.get, (groups c).map (fun _ => fun _ => 0))).1 := by
+  unfold projectByDykstraT
+  split_ifs with h
+  · simp only [Bool.or_eq_true, decide_eq_true_eq, Bool.not_eq_true', hact] at h
+    rcases h with h | h
+    · subst h; exact AgreeOn.refl _ _
+    · cases h
+  · exact projectByDykstraT_agreeS c n t
+
+/-- the executable `project_by_dykstra` computes the function-level position-slotted loop
+`dykstraIter (groups c)` (the object of `dykstra_cfg_converges`) on the box, for every iteration count,
+whenever its early-return test lets the loop run AND no dict key repeats (`hk`; with a repeated
+constraint the two loops differ: `dup_slots_differ`) -/
+theorem projectByDykstraT_agree_iter (c : DCfg) (hk : (groupKeys c).Nodup) (hact : dykstraActive c = true)
+    (n : Nat) (t : Table) :
     AgreeOn c.sizes (projectByDykstraT c n t).get
       (dykstraIter (groups c) n (t.get, (groups c).map (fun _ => fun _ => 0))).1 := by
-  unfold projectByDykstraT
+  rw [projectByDykstraT_of_nodup c hk]
   split_ifs with h
   · simp only [Bool.or_eq_true, decide_eq_true_eq, Bool.not_eq_true', hact] at h
     rcases h with h | h
@@ -1912,13 +2038,13 @@ theorem projectByDykstraT_cfg_converges (c : DCfg) (hwf : CfgWF c) (hact : dykst
         (((projectByDykstraT c n t).get idx : ℚ) : ℝ)) atTop (𝓝 (p idx))) ∧
       (∀ ε : ℝ, 0 < ε → ∃ n0 : Nat, ∀ n, n0 ≤ n → ∀ idx, InRange c.sizes idx →
         |(((projectByDykstraT c n t).get idx : ℚ) : ℝ) - p idx| < ε) := by
-  obtain ⟨p, hp, hnear, hlim, hsq⟩ := dykstra_cfg_converges c hwf t.get
+  obtain ⟨p, hp, hnear, hlim, hsq⟩ := dykstra_cfg_converges c hwf.toCfgShape t.get
   refine ⟨p, hp, hnear, fun idx hr => ?_, fun ε hε => ?_⟩
   · refine (hlim idx hr).congr (fun n => ?_)
-    rw [projectByDykstraT_agree_iter c hact n t idx hr]
+    rw [projectByDykstraT_agree_iter c hwf.keys hact n t idx hr]
   · obtain ⟨n0, h⟩ := uniform_of_bsum hsq hε
     refine ⟨n0, fun n hn idx hr => ?_⟩
-    rw [projectByDykstraT_agree_iter c hact n t idx hr]
+    rw [projectByDykstraT_agree_iter c hwf.keys hact n t idx hr]
     exact h n hn idx hr
 
 /-! ### range dominance is not covered: its corner map is not a projection -/
@@ -1943,7 +2069,7 @@ theorem rangeDom_corner_not_projection :
 /-- the 3×3 configuration of the fixpoint examples (monotone dimension 0, Edgeworth trust of 0
 conditional on 1) is well-formed and runs the loop -/
 example : CfgWF cEx ∧ dykstraActive cEx = true := by
-  refine ⟨⟨?_, ?_, ?_, ?_, ?_, rfl⟩, by decide⟩
+  refine ⟨⟨⟨?_, ?_, ?_, ?_, ?_, rfl⟩, by decide +kernel⟩, by decide⟩
   · intro tr htr
     have : tr = ⟨0, 1, true⟩ := by simpa [cEx] using htr
     subst this
@@ -1952,6 +2078,74 @@ example : CfgWF cEx ∧ dykstraActive cEx = true := by
   · intro p hp; simp [cEx] at hp
   · intro p hp; simp [cEx] at hp
   · intro ju hju; simp [cEx] at hju
+
+/-! ### the `last_change` dict: configurations without / with repeated constraints -/
+
+/-- `CfgWF` for a configuration of the right shape whose constraint lists have no repeated entry
+(`NoRepeats`: what a user who lists every constraint once provides; NOT checked by
+`verify_hyperparameters`) -/
+theorem cfgWF_of_noRepeats (c : DCfg) (hs : CfgShape c) (hn : NoRepeats c) : CfgWF c :=
+  { toCfgShape := hs, keys := groupKeys_nodup c hn }
+
+/-- **C08, convergence clause on the executable model, constraints listed once**: the statement of
+`projectByDykstraT_cfg_converges` with the duplicate-freeness of the dict keys discharged from the
+duplicate-freeness of the six constraint lists. -/
+theorem projectByDykstraT_cfg_converges_noRepeats (c : DCfg) (hs : CfgShape c) (hn : NoRepeats c)
+    (hact : dykstraActive c = true) (t : Table) :
+    ∃ p : Idx → ℝ, FeasibleR c p ∧
+      (∀ y : Idx → ℝ, FeasibleR c y →
+        bsum c.sizes (fun idx => ((t.get idx : ℝ) - p idx) ^ 2) + bsum c.sizes (fun idx => (p idx - y idx) ^ 2)
+          ≤ bsum c.sizes (fun idx => ((t.get idx : ℝ) - y idx) ^ 2)) ∧
+      (∀ idx, InRange c.sizes idx → Tendsto (fun n =>
+        (((projectByDykstraT c n t).get idx : ℚ) : ℝ)) atTop (𝓝 (p idx))) ∧
+      (∀ ε : ℝ, 0 < ε → ∃ n0 : Nat, ∀ n, n0 ≤ n → ∀ idx, InRange c.sizes idx →
+        |(((projectByDykstraT c n t).get idx : ℚ) : ℝ) - p idx| < ε) :=
+  projectByDykstraT_cfg_converges c (cfgWF_of_noRepeats c hs hn) hact t
+
+/-- the joint monotonicity `(0, 1)` listed twice on a 3×2 lattice -/
+def cDup : DCfg := { sizes := [3, 2], mono := [false, false], jointMono := [(0, 1), (0, 1)] }
+
+/-- **a repeated constraint shares its `last_change` slots, and that changes the iterates.** For
+`joint_monotonicities=[(0, 1), (0, 1)]` on a 3×2 lattice the eight group visits of a pass use the four
+slots `0,1,2,3,0,1,2,3` (the dict keys of the second copy are those of the first); after ONE pass from
+the kernel `(-1,-1,0,-1,-1,-1)` the model returns `(-1, -86/81, -178/243, -491/729, -581/729, -536/729)`
+— the values the real `project_by_dykstra` returns (harness corpus `corpus/C08/fixed.json`) — while the
+loop with one slot per list position (the model before this repair) returns different values. -/
+theorem dup_slots_differ :
+    slots cDup = [0, 1, 2, 3, 0, 1, 2, 3] ∧
+    Table.vals [3, 2] (projectByDykstraT cDup 1 (Table.ofVals [3, 2] [-1, -1, 0, -1, -1, -1]))
+      = [-1, -86 / 81, -178 / 243, -491 / 729, -581 / 729, -536 / 729] ∧
+    Table.vals [3, 2] (dykstraIterT [3, 2] (groups cDup) 1
+        (Table.ofVals [3, 2] [-1, -1, 0, -1, -1, -1], (groups cDup).map (fun _ => zeroT [3, 2]))).1
+      = [-1, -7 / 6, -113 / 162, -265 / 486, -427 / 486, -173 / 243] := by
+  refine ⟨by decide +kernel, by decide +kernel, by decide +kernel⟩
+
+/-- `cDup` has the shape the theorems ask for but NOT duplicate-free keys: it is outside `CfgWF` -/
+theorem cDup_not_cfgWF : CfgShape cDup ∧ ¬ CfgWF cDup := by
+  refine ⟨⟨?_, ?_, ?_, ?_, ?_, rfl⟩, fun h => ?_⟩
+  · intro tr htr; simp [cDup] at htr
+  · intro tr htr; simp [cDup] at htr
+  · intro p hp; simp [cDup] at hp
+  · intro p hp
+    have : p = (0, 1) := by simpa [cDup] using hp
+    subst this
+    exact ⟨by decide, by decide, by decide⟩
+  · intro ju hju; simp [cDup] at hju
+  · exact absurd h.keys (by decide +kernel)
+
+/-- a 'valley' and a 'peak' joint unimodality on the SAME dimension: different dict keys since /repo
+4b9511c (the direction is part of the key), so every group visit has its own slot -/
+def cVP : DCfg := { sizes := [3, 2], mono := [false, false], jointUnimod := [⟨[0], true⟩, ⟨[0], false⟩] }
+
+example : CfgWF cVP ∧ dykstraActive cVP = true ∧ slots cVP = [0, 1, 2, 3] := by
+  refine ⟨⟨⟨?_, ?_, ?_, ?_, ?_, rfl⟩, by decide +kernel⟩, by decide, by decide +kernel⟩
+  · intro tr htr; simp [cVP] at htr
+  · intro tr htr; simp [cVP] at htr
+  · intro p hp; simp [cVP] at hp
+  · intro p hp; simp [cVP] at hp
+  · intro ju hju
+    have : ju = ⟨[0], true⟩ ∨ ju = ⟨[0], false⟩ := by simpa [cVP] using hju
+    rcases this with rfl | rfl <;> exact ⟨by decide, by decide⟩
 
 /-! ### joint unimodality: the stencil map is an exact half-space projection, ANY coefficients -/
 
@@ -1992,7 +2186,7 @@ centred dimension does not enter the hyperplane, the real loop visits both), non
 example : (groups cJu).length = 12 := by decide +kernel
 
 example : CfgWF cJu ∧ dykstraActive cJu = true := by
-  refine ⟨⟨?_, ?_, ?_, ?_, ?_, rfl⟩, by decide⟩
+  refine ⟨⟨⟨?_, ?_, ?_, ?_, ?_, rfl⟩, by decide +kernel⟩, by decide⟩
   · intro tr htr; simp [cJu] at htr
   · intro tr htr; simp [cJu] at htr
   · intro p hp; simp [cJu] at hp
